@@ -37,6 +37,12 @@ CORPUS = [
     (0j, 3 + 2j, 30.0, True, False, 4 + 1j, 'corpus-generic'),
     (0j, -3 - 2j, 390.0, False, False, 4 + 1j, 'corpus-negative-radii'),
     (10 + 0j, 1 + 1j, 180.0, False, True, 0j, 'corpus-rot180-axis'),
+    # start within 1e-8 rad of an axis extreme (acos conditioning, KF-C04-4)
+    (100 + 1e-6j, 100 + 100j, 0.0, False, True, 100j, 'corpus-axis-extreme'),
+    # radii too small by a hair (decimally rounded data): radius_check = 1 + 2.2e-6, 1 + 2.2e-7, 1 + 5e-9
+    (0j, 70.7106 + 70.7106j, 0.0, False, True, 100 + 100j, 'corpus-hair-small'),
+    (0j, 70.71067 + 70.71067j, 0.0, True, False, 100 + 100j, 'corpus-hair-small'),
+    (0j, 70.710678 + 70.710678j, 30.0, True, True, 100 + 100j, 'corpus-hair-small'),
 ]
 
 
@@ -47,7 +53,7 @@ def rnd_pt(rng, sc=1e3):
 def gen_arc(rng, i):
     """one arc from the families of the quantifier"""
     fam = rng.choice(['ample', 'ample', 'too_small', 'too_small', 'exact_fit', 'eccentric',
-                      'near_snap', 'axis', 'int', 'tiny_chord', 'on_ellipse'])
+                      'near_snap', 'axis', 'int', 'tiny_chord', 'on_ellipse', 'hair_small', 'hair_small'])
     rot = rng.choice(ROTS + [rng.uniform(-720, 720), rng.uniform(0, 360), rng.uniform(-5, 5)])
     large, sweep = FLAGS[i % 4]
     neg = rng.random() < 0.25
@@ -57,7 +63,33 @@ def gen_arc(rng, i):
         z = (s - e) / 2 * complex(math.cos(phi), -math.sin(phi))
         return z.real, z.imag
 
-    if fam in ('ample', 'too_small', 'eccentric', 'tiny_chord'):
+    if fam == 'hair_small':
+        # radii too small by a hair: radius_check in [1+1e-9, 1+1e-4] log-uniform, obtained by
+        # shrinking an exactly fitting pair of radii by 1/sqrt(radius_check); the fitting pair is
+        # either a Pythagorean construction or the computed fit of a random chord
+        rc_t = 1 + 10 ** rng.uniform(-9, -4)
+        if rng.random() < 0.5:
+            a, b, c = rng.choice(PYTH)
+            if rng.random() < 0.5: a = -a
+            if rng.random() < 0.5: b = -b
+            rx = c * rng.randint(1, 40) / rng.choice([1, 2, 4, 8])
+            ry = c * rng.randint(1, 40) / rng.choice([1, 2, 4, 8])
+            phi = math.radians(rot)
+            d = complex(rx * a / c, ry * b / c) * complex(math.cos(phi), math.sin(phi))
+            mid = complex(rng.randint(-500, 500), rng.randint(-500, 500))
+            s, e = mid + d, mid - d
+        else:
+            s, e = rnd_pt(rng), rnd_pt(rng)
+            if s == e:
+                e = s + 1
+            x, y = half_chord_in_frame(s, e)
+            ecc = 10 ** rng.uniform(0, 2)
+            ax, ay = (1.0, 1.0 / ecc) if rng.random() < 0.5 else (1.0 / ecc, 1.0)
+            need = math.sqrt((x / ax) ** 2 + (y / ay) ** 2)
+            rx, ry = need * ax, need * ay
+        f = 1.0 / math.sqrt(rc_t)
+        r = complex(rx * f, ry * f)
+    elif fam in ('ample', 'too_small', 'eccentric', 'tiny_chord'):
         s = rnd_pt(rng)
         if fam == 'tiny_chord':
             e = s + rnd_pt(rng, 10 ** rng.uniform(-6, -1))
@@ -215,7 +247,8 @@ Definition ok (c : casety) : nat :=
       mul N (mul N rsum (bpow k1 n))
             (add N e9 (add N cth (mul N (add N (bz 1) (babs t)) cde))) in
   first_fail
-   [ (bcclose (mul N e9 rsum) o_radius (a_radius P), 1);
+   [ (* stored radii: |r| or sqrt(radius_check)*|r| — a few binary64 roundings, 1e-13 relative *)
+     (bcclose (mul N (mul N e9 (bf_of 1 (-13))) rsum) o_radius (a_radius P), 1);
      (bcclose (add N tol (mul N wabs kc)) o_center (a_center P), 2);
      (ang_close tol_th o_theta (a_theta P), 3);
      (bclose tol_de o_delta delta_m, 4);
@@ -238,7 +271,7 @@ Definition ok (c : casety) : nat :=
    ].
 '''
 
-OBS_NAMES = {1: 'stored radius', 2: 'center', 3: 'theta', 4: 'delta', 5: 'point(t)',
+OBS_NAMES = {1: 'stored radius (tolerance 1e-13 relative)', 2: 'center', 3: 'theta', 4: 'delta', 5: 'point(t)',
              6: 'derivative(t,n), n=1..5', 7: 'as_cubic_curves(2) control points',
              8: 'as_quad_curves(2) control points', 90: 'undecided (isclose threshold within rounding)',
              9: 'on-ellipse residual of the observed points w.r.t. the observed centre/radii',
@@ -273,6 +306,23 @@ def observe(arc_in, ts):
     o['cub'] = {k: [[complex(p) for p in c.bpoints()] for c in a.as_cubic_curves(k)] for k in (1, 2, 3, 5)}
     o['quad'] = {k: [[complex(p) for p in c.bpoints()] for c in a.as_quad_curves(k)] for k in (1, 2, 3, 5)}
     return a, o
+
+
+def nonfinite(o):
+    """names of the observed quantities that are not finite numbers"""
+    bad = []
+    fin = lambda z: math.isfinite(complex(z).real) and math.isfinite(complex(z).imag)
+    for k in ('radius', 'center', 'theta', 'delta'):
+        if not fin(o[k]):
+            bad.append(k)
+    if not all(fin(p) for p in o['pts']):
+        bad.append('point(t)')
+    if not all(fin(d) for ds in o['der'] for d in ds):
+        bad.append('derivative(t,n)')
+    for nm in ('cub', 'quad'):
+        if not all(fin(p) for pieces in o[nm].values() for c in pieces for p in c):
+            bad.append('as_%s_curves' % ('cubic' if nm == 'cub' else 'quad'))
+    return bad
 
 
 def case_term(arc_in, ts, o):
@@ -334,6 +384,40 @@ def fd_weights(x0, xs, m):
     return [c[i][m] for i in range(n)]
 
 
+def fsqrt(q):
+    """sqrt of a positive Fraction to ~1e-30 relative (Newton on integers)"""
+    sc = 10 ** 60
+    return Fr(math.isqrt(int(q * sc)), 10 ** 30)
+
+
+def scaling_clause(arc_in, o, ex=None):
+    """'radii are enlarged by exactly the minimal factor when no ellipse fits and are otherwise
+    unchanged', on the implementation, in exact rational arithmetic: radius_check from the inputs
+    and the stored rot_matrix; stored radii must be sqrt(radius_check)*|r| to 1e-13 relative when
+    radius_check > 1 + 1e-13, and |r| itself when radius_check < 1 - 1e-13."""
+    bad = []
+    if not (math.isfinite(o['radius'].real) and math.isfinite(o['radius'].imag)):
+        return [('scaling', 'stored radius is not finite', {'stored': str(o['radius'])})]
+    if ex is None:
+        ex = exact_frame(arc_in, o)
+    rc = ex['rc']
+    rx, ry = ex['rx'], ex['ry']
+    if rc > 1 + Fr(1, 10 ** 13):
+        lam = fsqrt(rc)
+        wx, wy = lam * ex['rx0'], lam * ex['ry0']
+        if not (abs(rx - wx) <= wx / 10 ** 13 and abs(ry - wy) <= wy / 10 ** 13):
+            bad.append(('scaling', 'no ellipse fits (radius_check = 1 + %.3g) but the stored radii %r are not the '
+                        'given radii enlarged by the minimal factor sqrt(radius_check) = 1 + %.3g (expected %r)'
+                        % (float(rc - 1), (float(rx), float(ry)), float(lam - 1), (float(wx), float(wy))),
+                        {'radius_check_minus_1': float(rc - 1), 'stored': [float(rx), float(ry)],
+                         'want': [float(wx), float(wy)]}))
+    elif rc < 1 - Fr(1, 10 ** 13):
+        if not (rx == ex['rx0'] and ry == ex['ry0']):
+            bad.append(('scaling', 'radii changed although an ellipse fits (radius_check = 1 - %.3g)' % float(1 - rc),
+                        {'radius_check_minus_1': float(rc - 1), 'stored': [float(rx), float(ry)]}))
+    return bad
+
+
 def holds_impl(arc_in, a, o, ts, fx=False):
     """the property statement on the implementation; returns list of (key, what, detail)"""
     bad = []
@@ -383,16 +467,8 @@ def holds_impl(arc_in, a, o, ts, fx=False):
     if not worst <= 1e-9 * max(1.0, scale / min(rx, ry)):
         bad.append(('off-ellipse', 'a point(t) is off the stored ellipse: residual %.3g' % worst, {'residual': worst}))
     # --- minimal scaling
+    bad += scaling_clause(arc_in, o, ex)
     rc = float(ex['rc'])
-    if rc > 1 + 1e-12:
-        want = (math.sqrt(rc) * float(ex['rx0']), math.sqrt(rc) * float(ex['ry0']))
-        if not (abs(rx - want[0]) <= 1e-12 * want[0] and abs(ry - want[1]) <= 1e-12 * want[1]
-                and abs(float(ex['rcS']) - 1) <= 1e-12):
-            bad.append(('scaling', 'radii not enlarged by exactly sqrt(radius_check)',
-                        {'rc': rc, 'stored': [rx, ry], 'want': want}))
-    elif rc < 1 - 1e-12:
-        if not (ex['rx'] == ex['rx0'] and ex['ry'] == ex['ry0']):
-            bad.append(('scaling', 'radii changed although an ellipse fits', {'rc': rc, 'stored': [rx, ry]}))
     # --- flags
     d = o['delta']
     if not (d != 0 and (d > 0) == bool(sw) and abs(d) <= 360):
@@ -486,6 +562,7 @@ def run(rep, tier, seed, replay=None):
         cases, meta, fams = [], [], {}
         nontrivial = set()
         found = {}          # key -> [count, first (what, replay)]
+        n_nonfinite = 0
         for arc_in in todo:
             fam = arc_in[6]
             fams[fam] = fams.get(fam, 0) + 1
@@ -497,9 +574,29 @@ def run(rep, tier, seed, replay=None):
                               {'kind': 'exception', 'arc': arc_json(arc_in), 'error': repr(ex)},
                               key='impl-exception')
                 continue
+            nontrivial.add((arc_in[0], arc_in[1], arc_in[2], arc_in[5]))
+            nf = nonfinite(o)
+            if nf:
+                # never skipped: an admissible arc with nan/inf geometry violates every clause
+                n_nonfinite += 1
+                exq = exact_frame(arc_in, dict(o, radius=complex(abs(arc_in[1].real), abs(arc_in[1].imag))))
+                key = 'non-finite-geometry'
+                if key not in found:
+                    found[key] = [0, 'non-finite %s on an admissible arc (radius_check = 1 + %.3g, stored radius %r, '
+                                  'center %r)' % ('/'.join(nf), float(exq['rc'] - 1), o['radius'], o['center']),
+                                  {'kind': 'property', 'arc': arc_json(arc_in),
+                                   'detail': {'nonfinite': nf, 'radius_check_minus_1': float(exq['rc'] - 1),
+                                              'radius': str(o['radius']), 'center': str(o['center'])},
+                                   'how': './check C04 --replay <this file>'}]
+                found[key][0] += 1
+                for key, what, detail in scaling_clause(arc_in, o):
+                    if key not in found:
+                        found[key] = [0, what, {'kind': 'property', 'arc': arc_json(arc_in), 'detail': detail,
+                                                'how': './check C04 --replay <this file>'}]
+                    found[key][0] += 1
+                continue
             cases.append(case_term(arc_in, ts, o))
             meta.append((arc_in, ts, o))
-            nontrivial.add((arc_in[0], arc_in[1], arc_in[2], arc_in[5]))
             for key, what, detail in holds_impl(arc_in, a, o, ts, fx):
                 if key not in found:
                     found[key] = [0, what, {'kind': 'property', 'arc': arc_json(arc_in), 'detail': detail,
@@ -535,6 +632,7 @@ def run(rep, tier, seed, replay=None):
         rep.cov['evaluations'] = (len(cases) - len(undecided)) * ncmp
         rep.cov['traces_validated_against_impl'] = len(cases) - len(undecided)
         rep.cov['skipped_undecided'] = len(undecided)
+        rep.cov['nonfinite_reported'] = n_nonfinite
         rep.cov['distinct_nontrivial'] = len(nontrivial)
         rep.cov['rule'] = ('arcs from the families %s (start/end in +-1e3; radii far too small, exactly fitting from '
                            'Pythagorean points, ample, negative-signed, eccentricity to 1e3, radicand around the 1e-8 '
